@@ -1018,9 +1018,19 @@ func flush(r *ev.Recorder, c caseSpec, o *oracle) {
 
 func runProperty(t *testing.T, plugin string, maxOps int) {
 	r := ev.New(t, "C12")
+	var cases, hits int64
+	defer func() {
+		// "fresh => hit" is not part of the statement, but a run in which nothing
+		// was ever answered from memory decides nothing: report it as inconclusive.
+		if !t.Failed() && cases >= 200 && hits == 0 {
+			fmt.Println("VERIF-INFRA: no request was answered from memory in", cases, "histories — the check would be vacuous")
+			t.Fail()
+		}
+	}()
 	rapid.Check(t, func(t *rapid.T) {
 		c := genCase(t, plugin, maxOps)
 		r.Case()
+		cases++
 		o := newOracle(c)
 		viol, err := execute(c, o)
 		if err != nil {
@@ -1031,6 +1041,7 @@ func runProperty(t *testing.T, plugin string, maxOps int) {
 			t.Fatalf("%s", r.Fail(c, "%v", err))
 		}
 		flush(r, c, o)
+		hits += o.js["req:hit"] + o.js["probe:hit"]
 		if o.nt {
 			r.NonTrivial(ev.JSON(c), func() any { return c })
 		}
